@@ -20,6 +20,7 @@ import (
 )
 
 type Clause struct {
+	CaseType ast.Expr // "case T:" prefix: the clause speaks about the type-switch case T only
 	Label string
 	Text  string
 	Expr  ast.Expr
@@ -46,6 +47,7 @@ type Contract struct {
 	RuleName  string
 	File      string
 	Reveal    []string
+	Lets      map[string]ast.Expr
 }
 
 type Lemma struct {
@@ -194,11 +196,22 @@ func mkClause(text string, where string, n int, kind string) (*Clause, error) {
 	if label == "" {
 		label = fmt.Sprintf("%s%d", kind, n)
 	}
+	var caseType ast.Expr
+	if strings.HasPrefix(rest, "case ") {
+		if i := strings.Index(rest, ":"); i > 0 {
+			ct, err := parser.ParseExpr(strings.TrimSpace(rest[5:i]))
+			if err != nil {
+				return nil, fmt.Errorf("%s: cannot parse case type %q: %v", where, rest[5:i], err)
+			}
+			caseType = ct
+			rest = strings.TrimSpace(rest[i+1:])
+		}
+	}
 	ex, err := parser.ParseExpr(rewriteImplies(rest))
 	if err != nil {
 		return nil, fmt.Errorf("%s: cannot parse %q: %v", where, rest, err)
 	}
-	return &Clause{Label: label, Text: rest, Expr: ex, Props: tags, Line: where}, nil
+	return &Clause{Label: label, Text: rest, Expr: ex, Props: tags, Line: where, CaseType: caseType}, nil
 }
 
 func (e *Engine) loadContracts() error {
@@ -322,6 +335,19 @@ func (e *Engine) parseContractFile(file, pkg string) error {
 				return fmt.Errorf("%s: clause outside a func block", where)
 			}
 			addClause(&cur.Ensures, "ensures")
+		case "let":
+			i := strings.Index(rest, "=")
+			if i < 0 || cur == nil {
+				return fmt.Errorf("%s: bad let", where)
+			}
+			ex, err := parser.ParseExpr(rewriteImplies(strings.TrimSpace(rest[i+1:])))
+			if err != nil {
+				return fmt.Errorf("%s: cannot parse let: %v", where, err)
+			}
+			if cur.Lets == nil {
+				cur.Lets = map[string]ast.Expr{}
+			}
+			cur.Lets[strings.TrimSpace(rest[:i])] = ex
 		case "inline":
 			cur.Inline = true
 		case "reveal":
@@ -348,9 +374,13 @@ func (e *Engine) parseContractFile(file, pkg string) error {
 			} else if cur != nil {
 				addClause(&cur.Decreases, "decreases")
 			}
-		case "at":
+		case "at", "interpreted":
 			if curLoop != nil {
-				curLoop.At = strings.TrimSpace(rest)
+				if word == "interpreted" {
+					curLoop.At = "interpreted"
+				} else {
+					curLoop.At = strings.TrimSpace(rest)
+				}
 			}
 		case "cellinv":
 			// cellinv COMP v: expr
@@ -519,10 +549,16 @@ type specCtx struct {
 	pos     token.Pos
 	where   string
 	real    *State
+	lets    map[string]ast.Expr
 }
 
 func (fe *FuncEnc) evalClause(f *Frame, c *Clause, cur, old *State, names map[string]TV, results []Term, pos token.Pos) (t Term) {
 	ctx := &specCtx{fe: fe, f: f, cur: cur, old: old, names: names, results: results, bound: map[string]TV{}, pos: pos, where: c.Line}
+	if f != nil && f.fn != nil {
+		if con := fe.eng.contracts[fe.eng.fnames[f.fn]]; con != nil {
+			ctx.lets = con.Lets
+		}
+	}
 	defer func() {
 		if r := recover(); r != nil {
 			if ee, ok := r.(*EngineError); ok {
@@ -615,6 +651,11 @@ func (c *specCtx) eval(e ast.Expr) TV {
 	case *ast.StarExpr:
 		v := c.eval(x.X)
 		return v
+	case *ast.TypeAssertExpr:
+		// expr.(*ast.Binary): the payload of an interface value viewed at a concrete type
+		v := c.eval(x.X)
+		t := c.resolveType(x.Type)
+		return TV{fe.fromVal(v.T, t), t}
 	}
 	_ = so
 	engErr("unsupported spec expression %T", e)
@@ -677,6 +718,11 @@ func (c *specCtx) ident(name string) TV {
 	}
 	if tv, ok := c.names[name]; ok {
 		return tv
+	}
+	if c.lets != nil {
+		if ex, ok := c.lets[name]; ok {
+			return c.eval(ex)
+		}
 	}
 	// SSA locals by source name: the closest dominating phi (or debug reference) carrying that name
 	if c.f != nil && c.f.fn != nil && c.f.curBlock != nil {
@@ -1094,6 +1140,26 @@ func (c *specCtx) call(x *ast.CallExpr) TV {
 		first := tSelect(tSelect(e, slRef(a.T)), slOff(a.T))
 		cond := tAnd(tEq(slLen(a.T), tInt(1)), Term{"((_ is VArr) " + first.S + ")", SBool})
 		return TV{tIte(cond, Term{"(varr " + first.S + ")", SSlice}, a.T), a.Typ}
+	case "unchanged", "unchangedHeap": // the Borno-visible state (resp. its heap part) equals the entry state
+		n := len(snapComps)
+		if name == "unchangedHeap" {
+			n = 4
+		}
+		var eqs []Term
+		for _, sc := range snapComps[:n] {
+			s := fe.eng.compSorts[sc.comp]
+			eqs = append(eqs, tEq(fe.comp(c.cur, sc.comp, s), fe.comp(c.old, sc.comp, s)))
+		}
+		return TV{tAnd(eqs...), boolT}
+	case "entryIsPre": // the entry state equals the state before event k
+		k := c.coerce(arg(0), SInt)
+		var eqs []Term
+		for _, sc := range snapComps {
+			s := fe.eng.compSorts[sc.comp]
+			log := fe.comp(c.cur, "LOG_pre"+sc.suffix, fe.eng.compSorts["LOG_pre"+sc.suffix])
+			eqs = append(eqs, tEq(fe.comp(c.old, sc.comp, s), tSelect(log, k)))
+		}
+		return TV{tAnd(eqs...), boolT}
 	case "store":
 		a, i, v := arg(0), arg(1), arg(2)
 		return TV{tStore(a.T, c.coerce(i, arrayIdxSort(a.T.Sort)), c.coerce(v, arrayElemSort(a.T.Sort))), nil}
@@ -1311,6 +1377,39 @@ func (c *specCtx) singleIndexedBase(body ast.Expr, name string) ast.Expr {
 	if len(bases) == 0 {
 		return nil
 	}
+	// the bound variable must occur nowhere else (e.g. as an index into the event log): otherwise the relative form
+	// gives the better triggers
+	total, inIndex := 0, 0
+	ast.Inspect(body, func(n ast.Node) bool {
+		if id, ok := n.(*ast.Ident); ok && id.Name == name {
+			total++
+		}
+		return true
+	})
+	ast.Inspect(body, func(n ast.Node) bool {
+		switch x := n.(type) {
+		case *ast.IndexExpr:
+			ast.Inspect(x.Index, func(m ast.Node) bool {
+				if id, ok := m.(*ast.Ident); ok && id.Name == name {
+					inIndex++
+				}
+				return true
+			})
+		case *ast.CallExpr:
+			if id, ok := x.Fun.(*ast.Ident); ok && id.Name == "elem" && len(x.Args) == 2 {
+				ast.Inspect(x.Args[1], func(m ast.Node) bool {
+					if id, ok := m.(*ast.Ident); ok && id.Name == name {
+						inIndex++
+					}
+					return true
+				})
+			}
+		}
+		return true
+	})
+	if total != inIndex {
+		return nil
+	}
 	txt := c.fe.eng.exprString(bases[0])
 	for _, b := range bases[1:] {
 		if c.fe.eng.exprString(b) != txt {
@@ -1327,4 +1426,36 @@ func (e *Engine) exprString(x ast.Expr) string {
 	var sb strings.Builder
 	printer.Fprint(&sb, token.NewFileSet(), x)
 	return sb.String()
+}
+
+// resolveType resolves a Go type expression of the forms *pkg.Name, pkg.Name, Name.
+func (c *specCtx) resolveType(e ast.Expr) types.Type {
+	switch x := e.(type) {
+	case *ast.StarExpr:
+		return types.NewPointer(c.resolveType(x.X))
+	case *ast.SelectorExpr:
+		if id, ok := x.X.(*ast.Ident); ok {
+			for _, p := range c.fe.eng.pkgs {
+				if p.Types.Name() == id.Name && strings.HasPrefix(p.PkgPath, repoModule) {
+					if obj := p.Types.Scope().Lookup(x.Sel.Name); obj != nil {
+						return obj.Type()
+					}
+				}
+			}
+		}
+	case *ast.Ident:
+		var own *types.Package
+		if c.f != nil && c.f.fn != nil && c.f.fn.Pkg != nil {
+			own = c.f.fn.Pkg.Pkg
+		} else if c.fe.fn != nil && c.fe.fn.Pkg != nil {
+			own = c.fe.fn.Pkg.Pkg
+		}
+		if own != nil {
+			if obj := own.Scope().Lookup(x.Name); obj != nil {
+				return obj.Type()
+			}
+		}
+	}
+	engErr("cannot resolve type %s", c.fe.eng.exprString(e))
+	return nil
 }
